@@ -66,14 +66,15 @@ fn cmd_check(args: &[String]) -> i32 {
         Some("thorough") => checks::Tier::Thorough,
         _ => checks::Tier::Quick,
     };
-    let budget_s: u64 = arg_val(args, "--budget").and_then(|s| s.parse().ok()).unwrap_or(if tier == checks::Tier::Quick { 40 } else { 600 });
+    let budget_s: u64 = arg_val(args, "--budget").and_then(|s| s.parse().ok()).unwrap_or(if tier == checks::Tier::Quick { 45 } else { 900 });
     let frag_path = arg_val(args, "--frag");
     let t0 = std::time::Instant::now();
     sched::install_quiet_hook();
     let mut frag = checks::Frag::new();
     let budget = std::time::Duration::from_secs(budget_s);
     let e2_first = !checks::e2_jobs(&prop, tier).is_empty();
-    checks::run_e1(&prop, tier, if e2_first { budget / 3 } else { budget }, &mut frag);
+    checks::run_e1(&prop, tier, if e2_first { budget / 2 } else { budget }, &mut frag);
+    checks::escalate(&prop, &mut frag);
     checks::run_e2(&prop, tier, budget.saturating_sub(t0.elapsed()), &mut frag);
     if prop == "C11" {
         checks::run_c11(tier, budget, &mut frag);
